@@ -276,6 +276,12 @@ func main() {
 			}
 			return "[" + strings.Join(p, "; ") + "]"
 		}
+		ca, cb := rb(3), rb(3)
+		if r.Intn(3) == 0 {
+			cb = append(append([]byte{}, ca...), rb(1)...)
+		}
+		c1, c2, c3 := fx.Cmp3(ca, cb, string(cb), string(ca))
+		ex("go_Cmp3 "+bytesL(ca)+" "+bytesL(cb)+" "+bytesL(cb)+" "+bytesL(ca), "("+z(c1)+", "+z(c2)+", "+b(c3)+")")
 		s1, s2 := fx.SumMap(xs)
 		ex("go_SumMap "+intL(xs), "("+z(s1)+", "+z(s2)+")")
 		ad, dr, pr := ws(7), ws(4), ws(5)
